@@ -145,6 +145,16 @@ class Inotify:
     def __init__(
         self, path: bytes, *, recursive: bool = False, event_mask: int | None = None, follow_symlink: bool = False
     ) -> None:
+        # Descriptors held by this instance; -1 = not acquired.
+        self._inotify_fd = self._kill_r = self._kill_w = -1
+        try:
+            self._setup(path, recursive=recursive, event_mask=event_mask, follow_symlink=follow_symlink)
+        except BaseException:
+            # Nobody can close() an instance whose construction failed: release what it holds.
+            self._close_resources()
+            raise
+
+    def _setup(self, path: bytes, *, recursive: bool, event_mask: int | None, follow_symlink: bool) -> None:
         # The file descriptor associated with the inotify instance.
         inotify_fd = inotify_init()
         if inotify_fd == -1:
@@ -396,9 +406,9 @@ class Inotify:
         return event_list
 
     def _close_resources(self) -> None:
-        os.close(self._inotify_fd)
-        os.close(self._kill_r)
-        os.close(self._kill_w)
+        for fd in (self._inotify_fd, self._kill_r, self._kill_w):
+            if fd != -1:
+                os.close(fd)
 
     # Non-synchronized methods.
     def _add_dir_watch(self, path: bytes, mask: int, *, recursive: bool) -> None:
